@@ -267,7 +267,8 @@ def rand_comp_spec(rng, stage=None, calls=True, nrows=None):
     def callstr():
         if not calls or rng.random() < 0.7:
             return ""
-        return ";".join(rng.choice(names) for _ in range(rng.choice([1, 1, 2, 3])))
+        sep = rng.choice([";", "; ", "; ", " ; "])
+        return sep.join(rng.choice(names) for _ in range(rng.choice([1, 1, 2, 3])))
     for i in range(nsr):
         rows.append([rounds, callstr(), 0])
     bells = list(rounds)
